@@ -4,17 +4,61 @@ import (
 	pb "diagonal.works/b6/proto"
 )
 
-// corpus: fixed witnesses of the defects found by the sweep (repaired ones first, then the recorded
-// findings), each evaluated on a fresh town world.
+// corpus: fixed witnesses of the defects found by the sweep (repaired ones first, then one per recorded
+// finding class), each evaluated on a fresh town world. mut "ov" = with the overlay layer filled.
 func corpus() []witness {
 	osmNode := func(v uint64) *Node { return FID(pb.FeatureType_FeatureTypePoint, "openstreetmap.org/node", v) }
-	_ = osmNode
+	way := func(v uint64) *Node { return FID(pb.FeatureType_FeatureTypePath, "openstreetmap.org/way", v) }
+	p0 := pt{515367000, -1230000}
+	square := [][][]pt{{{{515350000, -1250000}, {515350000, -1240000}, {515360000, -1240000}, {515360000, -1250000}}}}
+	noCentre := QCap(nil, 156.75)
 	return []witness{
-		// fixed by other builders' patches, kept here because they are this property's anchors
+		// ---- repaired by other builders' patches; anchors of this property
 		{"top-empty", F("top", F("collection"), I(3)), "-"},
 		{"take-negative", F("count", F("take", Coll([]*Node{I(0), I(1)}, []*Node{I(5), I(6)}), I(-1))), "-"},
 		{"call-lambda-literal", C(L([]string{"a"}, F("add-ints", S("a"), S("a"))), I(1)), "-"},
 		{"call-non-callable", C(F("add-ints", I(1), I(2)), I(3)), "-"},
 		{"partial-reapply", C(C(F("clamp", I(1)), I(2)), I(3)), "-"},
+		// ---- repaired by fixes/C23-*.patch
+		{"feature-type-from-proto", lit(&pb.LiteralNodeProto{Value: &pb.LiteralNodeProto_FeatureIDValue{FeatureIDValue: fidProto(pb.FeatureType(9), "openstreetmap.org/node", 127)}}, "o:fid:/type9/openstreetmap.org/node/127"), "-"},
+		{"feature-type-from-proto-typed", F("find", QL(QTyped(pb.FeatureType(9), QAll()))), "-"},
+		{"point-proto-nil", QL(noCentre), "-"},
+		{"point-proto-nil-find", F("find", QL(QAnd(noCentre, QKeyed("#building")))), "-"},
+		{"expression-from-proto-nil-request", Str("main"), "no-request"},
+		{"expression-from-proto-nil-function", F("add-ints", I(1), I(2)), "clear:0"},
+		{"expression-from-proto-nil-lambda-body", L([]string{"x"}, S("x")), "clear:0"},
+		{"geojson-literal-from-proto", F("pair", Nil(), GeoJSONLit([]byte("{}"))), "-"},
+		{"histogram-error-before-use", F("histogram", F("map", Coll([]*Node{I(0)}, []*Node{I(1)}), S("get"))), "-"},
+		{"histogram-error-before-use-filter", F("histogram-with-id", F("filter", Coll([]*Node{I(0), I(1)}, []*Node{I(1), I(2)}), L([]string{"x"}, F("divide", S("x"), Str("a")))),
+			FID(pb.FeatureType_FeatureTypeCollection, "diagonal.works/ns/c23", 7)), "-"},
+		{"histogram-mixed-values", F("histogram", Coll([]*Node{I(0), I(1)}, []*Node{I(1), Fl(2.5)})), "-"},
+		{"histogram-mixed-values-tag", F("histogram", Coll([]*Node{I(0), I(1), I(2)}, []*Node{I(4), I(2), Tag("k", "v")})), "-"},
+		{"count-unhashable-values", F("count-values", Coll([]*Node{I(0)}, []*Node{Coll(nil, nil)})), "-"},
+		{"count-unhashable-keys", F("count-keys", Coll([]*Node{Area(square)}, []*Node{I(1)})), "-"},
+		{"count-unhashable-valid-keys", F("count-valid-keys", Coll([]*Node{Route(nil, nil)}, []*Node{osmNode(111)})), "-"},
+		{"count-unhashable-sum-by-key", F("sum-by-key", Coll([]*Node{Coll(nil, nil), I(1)}, []*Node{I(1), I(2)})), "-"},
+		{"count-unhashable-histogram", F("histogram", Coll([]*Node{I(0), I(1)}, []*Node{Coll(nil, nil), I(2)})), "-"},
+		{"convert-nil-interface", F("points", F("find-collection", FID(pb.FeatureType_FeatureTypeCollection, "", 2))), "-"},
+		{"sample-points-distance-zero", F("sample-points", Path([]pt{{515350000, -1250000}, {515360000, -1240000}}), Fl(0)), "-"},
+		{"sample-points-distance-negative", F("sample-points", Path([]pt{{515350000, -1250000}, {515360000, -1240000}}), Fl(-44.75)), "-"},
+		{"sample-points-distance-nan", F("sample-points-along-paths", Coll([]*Node{way(200)}, []*Node{Path([]pt{{515350000, -1250000}, {515360000, -1240000}})}), Fl(nan)), "-"},
+		{"validate-feature-representation-relation", F("add-point", Point(p0), FID(pb.FeatureType_FeatureTypeRelation, "openstreetmap.org/relation", 700), Coll([]*Node{I(0)}, []*Node{Tag("path", "zz")})), "ov"},
+		{"validate-feature-representation-area", F("add-expression", FID(pb.FeatureType_FeatureTypeArea, "diagonal.works/ns/c23", 726414917505418541), Coll(nil, nil), S("changes-to-file")), "-"},
+		{"validate-feature-representation-collection", F("add-point", Point(p0), FID(pb.FeatureType_FeatureTypeCollection, "diagonal.works/ns/c23", 2), Coll(nil, nil)), "-"},
+		{"divide-int-by-zero", F("divide", I(31), I(0)), "-"},
+		{"divide-int-by-zero-count", F("divide", I(7), F("count", F("collection"))), "-"},
+		{"zero-collection", F("accessible-routes", FID(pb.FeatureType_FeatureTypeInvalid, "openstreetmap.org/node", 343), QL(QAll()), Fl(-1), Coll([]*Node{Str("maxspeed")}, []*Node{I(1)})), "-"},
+		{"zero-collection-count", F("count", F("accessible-routes", osmNode(999), QL(QAll()), Fl(100), Coll(nil, nil))), "-"},
+		// ---- recorded findings (KNOWN_FINDINGS.txt), one or two witnesses per class
+		{"finding-geometry-kind-join", F("join", Point(p0), Point(pt{})), "-"},
+		{"finding-geometry-kind-length", F("length", Area(nil)), "-"},
+		{"finding-geometry-kind-interpolate", F("interpolate", Point(p0), Fl(0)), "-"},
+		{"finding-geometry-kind-sightline", F("sightline", Path(nil), Fl(314)), "-"},
+		{"finding-geometry-kind-to-geojson", F("to-geojson", Area([][][]pt{{}})), "-"},
+		{"finding-nil-feature-tile-ids", F("tile-ids", F("find-collection", FID(pb.FeatureType_FeatureTypeCollection, "diagonal.works/ns/c23", 2))), "-"},
+		{"finding-nil-feature-degree", F("degree", F("find-feature", osmNode(999))), "-"},
+		{"finding-unliterable-item", F("count-keys", F("map-items", Coll([]*Node{I(4)}, []*Node{QL(QKeyed("name"))}), L([]string{"va"}, F("pair", I(1), S("va"))))), "-"},
+		{"finding-typed-query-type", F("find", QL(QTyped(pb.FeatureType_FeatureTypeExpression, QKeyed("point")))), "-"},
+		{"finding-closure-registers", C(C(C(L([]string{"a", "b"}, L([]string{"c"}, F("add-ints", S("a"), S("c")))), I(1)), I(2)), I(3)), "-"},
 	}
 }
